@@ -186,6 +186,13 @@ fn main() {
             let rel = args.get(2).cloned().unwrap_or_else(|| usage());
             let name = args.get(3).cloned().unwrap_or_else(|| usage());
             if let Ok(src) = srcmodel::load(&repo, &rel) {
+                for f in src.all_free_fns() {
+                    if f.sig.ident == name {
+                        for e in srcmodel::exits(&f.block) {
+                            println!("{:?} => {}", e.conds, e.result.chars().take(90).collect::<String>());
+                        }
+                    }
+                }
                 for i in src.impls() {
                     for it in &i.items {
                         if let syn::ImplItem::Fn(f) = it {
